@@ -22,6 +22,7 @@ namespace {
 struct Case {
     std::vector<uint8_t> bytes;
     int                  width{1};
+    int                  alias{0}; // 1: phrases and text runs contain look-alike units (see g_alias); absent in older replay files
 };
 
 // ------------------------------------------------------------------------------------------------ value model
@@ -35,6 +36,22 @@ struct VNode {
     std::vector<VNode>                        arr;
     std::vector<std::pair<std::string, VNode>> obj;
 };
+
+// Alias mode (Case::alias): phrases and text runs also contain bytes above 0x7F. In the wider instantiations such a byte stands for
+// the unit U+0100 | low seven bits - a non-ASCII character whose LOW BYTE is an ASCII character ('{', '}', '<', ':', a digit ...).
+// It is ordinary text: it must be copied through, never read as tag syntax or as a placeholder digit. For char it stays one byte.
+static thread_local bool g_alias = false;
+template <typename Char_T>
+inline uint32_t widen_unit(uint32_t byte) {
+    return (sizeof(Char_T) > 1 && byte >= 0x80) ? (0x0100U | (byte & 0x7FU)) : byte;
+}
+template <typename Char_T>
+inline char narrow_unit(uint32_t unit) {
+    if (sizeof(Char_T) > 1 && unit >= 0x0100U && unit < 0x0180U) {
+        return char(0x80U | (unit & 0x7FU));
+    }
+    return (unit > 0xFFU) ? '\x7F' : char(unit); // any other wide unit is not something this harness ever wrote
+}
 
 static const char *kStrings[] = {"plain", "a&b", "<i>x</i>", "it's", "say \"hi\"", "", "12", "x y", "-3.5", "&amp; done", "zeta", "alpha", "Beta"};
 static const double kReals[]  = {0.5, 2.25, 3.0, 10.75, 1234.5678, -0.125, 11150.001, 0.005, 99.995, 1e15, 2.675};
@@ -113,7 +130,9 @@ VNode gen_root(Entropy &e) {
     n.k = VK::Str;
     {
         static const char *ph[] = {"Hello {0}, you have {1} items.", "{1} & {0} <{2}>", "no placeholders", "{0}{0}{1}", "end {3} {9} {0}", "brace { and {x} and {12}"};
-        n.s                     = ph[e.below(6)];
+        static const char *pa[] = {"Hello {\xB0}, you have {1} items {0}.", "{1} & {\xB1} <{2}> \xFB" "0\xFD", "no \xFB" "1} placeholders {\xB2}", "{0}{\xB0}{1}\xFB",
+                                   "end {3} {\xB9} {0} {\xB0", "brace { and {\xF8} and {1\xB2} {0}"};
+        n.s                     = (g_alias ? pa : ph)[e.below(6)];
     }
     put("phrase", n);
     // an array of distinct scalars of one kind (sortable)
@@ -200,7 +219,7 @@ template <typename Char_T>
 String<Char_T> mkstr(const std::string &s) {
     Units u(s.begin(), s.end());
     for (auto &x : u) {
-        x &= 0xFF;
+        x = widen_unit<Char_T>(x & 0xFF);
     }
     jm::Buf<Char_T> b(u);
     return String<Char_T>{b.cp(), SizeT(b.n)};
@@ -1070,9 +1089,12 @@ struct Gen {
 
     std::unique_ptr<TNode> gen_text() {
         static const char *t[] = {"", " ", "Hello, ", "a & b ", "1 < 2 ", "\n", "line\n", "<b>bold</b>", "100%", "(x) ", "q=\"1\" ", "it's ", "[", "]", ": ", ", "};
+        // the same with look-alikes: {var:a}, <loop>, </if>, {math:1+1} ... spelled with units whose low bytes are the syntax characters
+        static const char *a[] = {"", " ", "\xFBvar:a\xFD ", "a \xA6 b ", "\xBCif case=\xA2" "1\xA2\xBE", "\n", "\xBC/loop\xBE", "\xBC" "b>bold</b\xBE", "{\xF6" "ar:a}",
+                                  "\xFBmath:1+1\xFD", "{raw\xBA" "a}", "\xFBsvar:phrase, \xFBvar:a\xFD\xFD", "\xDB", "\xDD", "\xBA ", "\xFBif case=\"1\" true=\"x\"\xFD"};
         auto               n    = std::make_unique<TNode>();
         n->k                    = TNode::Text;
-        n->text                 = t[e.below(16)];
+        n->text                 = (g_alias ? a : t)[e.below(16)];
         return n;
     }
     std::unique_ptr<TNode> gen_simple(const GenScope &sc) { // Var / Raw / Math
@@ -1395,6 +1417,7 @@ struct Scenario {
 
 void make_scenario(const Case &c, Scenario &s) {
     Entropy e(c.bytes);
+    g_alias = (c.alias != 0);
     s.root = gen_root(e);
     Gen      g{e, s.root};
     GenScope sc;
@@ -1441,7 +1464,7 @@ std::string render_with_library(const Scenario &s, pbt::Ctx &ctx) {
 #endif
     Units               tu(s.text.begin(), s.text.end());
     for (auto &x : tu) {
-        x &= 0xFF;
+        x = widen_unit<Char_T>(x & 0xFF);
     }
     jm::Buf<Char_T>      tb(tu);
     StringStream<Char_T> out;
@@ -1528,7 +1551,7 @@ std::string render_with_library(const Scenario &s, pbt::Ctx &ctx) {
 #endif
     std::string o;
     for (SizeT i = 0; i < out.Length(); ++i) {
-        o.push_back(char(jm::unit_of(out.First()[i]) & 0xFF));
+        o.push_back(narrow_unit<Char_T>(jm::unit_of(out.First()[i])));
     }
     return o;
 }
@@ -1542,11 +1565,13 @@ struct H {
 #endif
     static rc::Gen<Case> gen() {
         using namespace rc;
-        return gen::map(gen::tuple(gen::resize(400, gen::container<std::vector<uint8_t>>(gen::arbitrary<uint8_t>())), pbt::pick<int>({1, 1, 2, 4, 3})),
-                        [](std::tuple<std::vector<uint8_t>, int> t) {
+        return gen::map(gen::tuple(gen::resize(400, gen::container<std::vector<uint8_t>>(gen::arbitrary<uint8_t>())), pbt::pick<int>({1, 1, 2, 4, 3}),
+                                   pbt::pick<int>({0, 0, 1})),
+                        [](std::tuple<std::vector<uint8_t>, int, int> t) {
                             Case c;
                             c.bytes = std::get<0>(t);
                             c.width = std::get<1>(t);
+                            c.alias = std::get<2>(t);
                             return c;
                         });
     }
@@ -1554,7 +1579,9 @@ struct H {
     static bool from_fuzz(const uint8_t *d, size_t n, Case &c) {
         pbt::FuzzBytes f(d, n);
         static const int w[] = {1, 2, 4, 3};
-        c.width = w[f.sel() & 3];
+        const uint8_t sel = f.sel();
+        c.width = w[sel & 3];
+        c.alias = (sel >> 2) & 1;
         c.bytes = f.rest();
         return true;
     }
@@ -1567,6 +1594,7 @@ struct H {
             hex += b;
         }
         kv.put("width", c.width);
+        kv.put("alias", c.alias);
         kv.put("bytes", hex);
         Scenario s;
         make_scenario(c, s);
@@ -1585,6 +1613,7 @@ struct H {
             c.bytes.push_back(uint8_t(strtoul(hex.substr(i, 2).c_str(), nullptr, 16)));
         }
         c.width = int(kv.geti("width", 1));
+        c.alias = int(kv.geti("alias", 0));
         return c;
     }
     static void run(const Case &c, pbt::Ctx &ctx) {
@@ -1614,6 +1643,7 @@ struct H {
         ctx.label("has-unresolved-path", s.unresolved);
         ctx.label("nesting>=8", s.depth >= 8);
         ctx.label("nesting>255", s.very_deep);
+        ctx.label("look-alike-units", c.alias != 0 && c.width > 1);
         std::string got;
         switch (c.width) {
             case 1: got = render_with_library<char>(s, ctx); break;
